@@ -5,7 +5,7 @@ use crate::{
     error::ContractError,
     helpers::{
         validate_address, validate_address_prefix, validate_addresses, validate_denom,
-        validate_ibc_denom,
+        validate_ibc_denom, validate_period,
     },
     state::{NativeChainConfig, ProtocolChainConfig, ProtocolFeeConfig},
 };
@@ -69,7 +69,7 @@ impl UnsafeNativeChainConfig {
             validator_address_prefix: validate_address_prefix(&self.validator_address_prefix)?,
             token_denom: validate_denom(&self.token_denom)?,
             validators: validate_addresses(&self.validators, &self.validator_address_prefix)?,
-            unbonding_period: self.unbonding_period,
+            unbonding_period: validate_period(self.unbonding_period)?,
             staker_address: validate_address(&self.staker_address, &self.account_address_prefix)?,
             reward_collector_address: validate_address(
                 &self.reward_collector_address,
